@@ -74,16 +74,19 @@ class RobotsTxtChecker(object):
             request = Request(url)
 
             session = self._web_client.session(request)
-            while not session.done():
-                wpull.util.truncate_file(file.name)
 
-                try:
-                    response = yield from session.start()
-                    yield from session.download(file=file)
-                except ProtocolError:
-                    self._accept_as_blank(url_info)
+            # Leaving the session returns its connection also on errors
+            with session:
+                while not session.done():
+                    wpull.util.truncate_file(file.name)
 
-                    return
+                    try:
+                        response = yield from session.start()
+                        yield from session.download(file=file)
+                    except ProtocolError:
+                        self._accept_as_blank(url_info)
+
+                        return
 
             status_code = response.status_code
 
